@@ -64,9 +64,15 @@ def default_caps_sweep(v, naija):
     # scopes: nested blocks
     def scopes(n):
         return "make x get 1\n" + "start\n" * n + "x get x add 1\n" + "end\n" * n + "shout(x)\n", "2"
-    for n, over in ((1000, False),):
+    # (the parser refuses nesting beyond 256 levels, so the scope LIMIT is only reachable with blocks in sequence)
+    for n, over in ((200, False),):
         src, out = scopes(n)
         cases.append(("scopes:%d" % n, src, out, over))
+    def blocks(n):
+        return "make x get 1\n" + "start end\n" * n + "shout(x)\n", "1"
+    for n, over, tag in ((131000, False, "below"), (131073, True, "above")):
+        src, out = blocks(n)
+        cases.append(("blocks:%d:%s" % (n, tag), src, out, over))
     # locals (liveness bound): N root variables
     def locs(n):
         return "".join("make v%d get %d\n" % (i, i) for i in range(n)) + "shout(v0 add v%d)\n" % (n - 1), str(n - 1)
